@@ -855,8 +855,19 @@ def quoted_sink_rule(crate, syn, prop, rule="C04.R4"):
         return False
     for x in ("EnumAttr", "StructAttr"):
         got = set()
+        # from_attrs, and the functions of the crate it reaches that are about this attribute type (a generic helper, a
+        # `finish(self, docs)` method of the type)
+        roots = [bb.path for bb in crate.bodies if re.search(r"%s::from_attrs$" % x, bb.path) and bb.kind in ("Fn", "AssocFn")]
+        cg0 = crate.callgraph(())
+        reach0, todo0 = set(), list(roots)
+        while todo0 and len(reach0) < 60:
+            q0 = todo0.pop()
+            if q0 in reach0:
+                continue
+            reach0.add(q0)
+            todo0 += [z for z in cg0.get(q0, ()) if z.startswith(("attr::", "utils::", "<attr::")) or "{closure" in z]
         for b0 in crate.bodies:
-            if not re.search(r"%s::from_attrs$" % x, b0.path) or b0.kind not in ("Fn", "AssocFn"):
+            if b0.path not in reach0 or b0.kind not in ("Fn", "AssocFn") or not (b0.path in roots or x in b0.path):
                 continue
             b = crate.ibody(b0.path)
             for fld in ("tag", "content"):
